@@ -98,3 +98,19 @@ Example C14_nonvacuous :
   Qeq_bool (qsum (pdp_new_proba (1 # 20) 3 [0; 2; 2; 0]%nat [true; false; true; false])) 1 = true.
 Proof. vm_compute. auto. Qed.
 Print Assumptions C14_nonvacuous.
+
+(* ------------------------------------------------------------------------------------------------
+   THE TIE TO THE SOURCE for the SelfC* update rule.  SelfCGA._get_new_proba (inherited by SelfCGP) is translated on every run
+   (harness/translate_code.py; the str-keyed probability dict is modelled by its value list in key order, the winner's key by its
+   position; the in-place update of the caller's dict is part of the result).  For every K, iters, threshold <= 1, map and winner:
+   the returned map is selfc_new_proba (entries ==), so C14_distribution_selfc / C14_floor_selfc / C14_selfc_rule_update above are
+   statements about what the source computes. *)
+From TF Require Import Py CodeEqC14.
+From TFG Require Import GenCode.
+Open Scope Q_scope.
+
+Theorem C14_code_selfc_new_proba : forall (K : Q) (iters : Z) (thr : Q) (p : list Q) (w : Z), (0 <= w)%Z -> thr <= 1 ->
+  fst (py_SelfCGA_get_new_proba K iters p w thr) = upd p (Z.to_nat w) (nth (Z.to_nat w) p 0 + K / ZtoQ iters) /\
+  Forall2 Qeq (snd (py_SelfCGA_get_new_proba K iters p w thr)) (selfc_new_proba K (ZtoQ iters) thr p (Z.to_nat w)).
+Proof. exact code_selfc_new_proba. Qed.
+Print Assumptions C14_code_selfc_new_proba.
